@@ -61,6 +61,9 @@ def gen_net(rng):
 def generate(rng, tier):
     env = gen.gen_env(rng)
     env["clock_profile"] = "calm"
+    # how long the command itself takes in simulated time: from microseconds to several seconds
+    env["read_cost_us"] = rng.choice([0, 0, 2_000, 150_000, 400_000, 900_000])
+    env["effect_cost_us"] = rng.choice([20, 20, 1_000, 120_000, 350_000])
     tree = gen.gen_tree(rng, max_entries=5, max_depth=1, hostile=0.1)
     env["tree"] = tree
     files = gen.tree_files(tree)
@@ -153,7 +156,10 @@ def execute(sc, ctx):
     switches = sum(1 for a, b in zip(v["schedule"], v["schedule"][1:]) if a[1] != b[1])
     sched_hash = core.h64(tuple(map(tuple, v["schedule"])))
     ctx.note("cli", sc["tool"], sc["argv"], net, v["exit"], v["terminated"], v["elapsed_us"], sched_hash)
-    ctx.state(sched_hash, net["kind"], lat_class, sc["argv"][0], str(v["exit"]))
+    dur_class = "<1ms" if t_elapsed < 1000 else "<1s" if t_elapsed < 1_000_000 else ">=1s"
+    if t_elapsed >= 1_000_000:
+        ctx.probe("command_runs_longer_than_one_second")
+    ctx.state(sched_hash, net["kind"], lat_class, sc["argv"][0], str(v["exit"]), dur_class)
     if switches >= 2:
         ctx.nontrivial = True
     ctx.fault("net_" + net["kind"] + ("_" + str(net.get("exc") or net.get("status") or "") if net["kind"] in ("exc", "http") else ""))
